@@ -30,10 +30,72 @@ HARNESSES = [
  _h('array_kinds_sum', 'view::sum over a symbolic (possibly negative) axis of a (2,3) fixed / hybrid / dynamic ndarray_t (KA) x build, data and index symbolic.' + ENUM, quick=_cfgs(3, (0, 1)), thorough=_cfgs(3, (0, 1))),
  _h('constants', 'compile-time constant shapes (types, ENUMERATED: (2,3,4); (2,1,4)x(3,1)) vs the run-time functions on the same values; constant x symbolic run-time operand', quick=_cfgs(3, (0,)), thorough=_cfgs(4, (0,))),
 ]
+# ---- family "ctargs": compile-time ARGUMENTS (ct_v<K>, 2_ct / "-1"_ct literals, tuples of constants, nm::True/False) on FIXED-shape operands
+# (raw C array and nested std::array) vs the same values as run-time arguments on a hybrid operand. K (per-query constant) selects the instantiation.
+CT_FAMS = dict(flip=1, transpose=2, moveaxis=3, swapaxes=4, expand_dims=5, squeeze=6, reshape=7, atleast_nd=8, tile=9, repeat=10, roll=11, take=12, sum=13, cumsum=14,
+               reduce_add=15, diagonal=16, tril=17, eye=18, pad=19, slice=20, gen=21, broadcast_to=22, concatenate=23)
+# one small TU per view (same source, -DONLY=<section>): the CBMC front end cost grows with the TU, so every query only parses the section it needs
+for _n, _id in CT_FAMS.items(): KERNELS['C09_ctargs_' + _n] = dict(src='kernels/C09_ctargs.cpp', flags=['-DNDEBUG', '-DONLY=%d' % _id])
+CT_COMMON = (' Both fixed operand kinds (raw C array, nested std::array) are called in every query (generators have no operand); the argument variant K is a per-query constant, enumerated '
+             '(FAM selects the kernel section); unless MIX says otherwise the two mixed calls (constant arguments on the hybrid operand, run-time arguments on the raw array) are made and compared too; data (any 32-bit values), fill / initial values and the index are symbolic; dim, shape and size are checked against the NumPy shape written in the harness, the element against the run-time call and the NumPy element.')
+def _ct(name, nk, bounds, tu=None, quick=None, deep=(), mix=(1, 1), **kw):
+    """nk variants K = 0..nk-1; `quick` (default: all) is the subset run in the quick tier (the thorough tier always runs all); `deep`: variants whose loops run over all 12 cells;
+    mix = (quick, thorough) value of MIX: 1 = also the two mixed calls (constant arguments on the hybrid operand, run-time arguments on the raw array), 2 = only the first of them, 0 = none"""
+    tu = tu or name
+    def cfg(k, m):
+        c = {'FAM': CT_FAMS[tu], 'K': k}
+        if m != 1: c['MIX'] = m
+        if k in deep: c['_unwind'] = 14
+        return c
+    return dict(name='ctargs_' + name, src='harnesses/C09_ctargs.c', func='h_ctargs_' + name, kernels=['C09_ctargs_' + tu], unwind=8,
+                unwindset=['k_fill_u32.0:14', 'k_fill_u32.1:14', 'data.0:14'], bounds=bounds + CT_COMMON, thorough_includes_quick=False,
+                quick=[cfg(k, mix[0]) for k in (quick if quick is not None else range(nk))], thorough=[cfg(k, mix[1]) for k in range(nk)], **kw)
+HARNESSES += [
+ _ct('flip', 9, 'view::flip of a (2,3,2) operand: axis 0,1,2,-1,-2,-3 as integral constants, None, tuples (0,2) and (-1,1) of constants.'),
+ _ct('transpose', 7, 'view::transpose of a (2,3,2) operand: the six permutations as tuples of constants, and the default.'),
+ _ct('moveaxis', 11, 'view::moveaxis of a (2,3,2) operand: 11 (source, destination) pairs of integral constants incl. negative ones.'),
+ _ct('swapaxes', 8, 'view::swapaxes of a (2,3,2) operand: 8 pairs of integral constants incl. negative ones and a1 == a2.'),
+ _ct('expand_dims', 8, 'view::expand_dims of a (2,3) operand: axis 0,1,2,-1,-2,-3 as constants, tuples (0,2), (1,3).'),
+ _ct('squeeze', 3, 'view::squeeze of a fixed (2,1,3), (1,2,3), (2,3,1) operand.'),
+ _ct('reshape', 9, 'view::reshape of a (2,3,2) operand to 9 constant targets: (12),(3,4),(4,3),(2,2,3),(-1),(-1,4),(6,-1),(3,-1,2),(1,12,1,1).'),
+ _ct('atleast_nd', 4, 'view::atleast_nd of a (2,3) operand, nd = 1..4 as a constant (the run-time nd gives a dynamic-dimension view: 3 GB per call, so only one run-time-argument call per query; nd = 2 (= the operand dimension) only in the thorough tier).', quick=(0, 2, 3), mix=(2, 2)),
+ _ct('tile', 7, 'view::tile of a (2,3) operand, reps as tuples of constants: (2),(1,2),(2,1),(2,2),(2,1,2),(1,1),(3,1,1,2).'),
+ _ct('repeat', 9, 'view::repeat of a (2,3) operand: constant scalar repeats with constant axis 0,1,-1,-2 / None, and per-element constant repeats (1,2) axis 0, (2,1,3) axis 1 / -1.'),
+ _ct('roll', 15, 'view::roll of a (2,3) operand: 10 (shift, axis) pairs of constants incl. negative shifts, |shift| > extent and negative axes; axis None with shift 1 / -8; tuples of shifts and axes.'),
+ _ct('take', 8, 'view::take of a (2,3) operand: a fixed std::array of 4 SYMBOLIC indices (negative ones count from the end) with constant axis 0,1,-1,-2 / None; constant index tuples (2,0,0,1), (1,1,0).'),
+ _ct('sum', 15, 'view::sum of a (2,3,2) operand: constant axis 0,1,2,-1,-2,-3, keepdims default / nm::True / nm::False, tuples of constant axes, axis None (scalar / keepdims). '
+     'Quick tier: 5 of the 15 variants (axis -2; tuples (-1,0) keepdims True and (1,-1) keepdims False; None; None keepdims; each 3-d reduction query costs 1-3 minutes) without the mixed calls; all 15 in the thorough tier; '
+     'every axis / keepdims combination is in the quick tier on the (2,3) operand (ctargs_reduce_add, the function view::sum forwards to).', quick=(4, 11, 12, 13, 14), deep=(13, 14), mix=(0, 1), cbmc_flags=['--slice-formula']),
+ _ct('cumsum', 6, 'view::cumsum of a (2,3,2) operand: constant axis 0,1,2,-1,-2,-3. Quick tier: axis -2 without the mixed calls (1-2 minutes per query); all six in the thorough tier; all axes of a (2,3) operand in ctargs_cumsum2.', quick=(4,), mix=(0, 1), cbmc_flags=['--slice-formula']),
+ _ct('cumsum2', 4, 'view::cumsum of a (2,3) operand: constant axis 0,1,-1,-2 (quick tier: of the mixed calls only the constant-argument one).', tu='cumsum', mix=(2, 1), cbmc_flags=['--slice-formula']),
+ _ct('reduce_add', 9, 'view::reduce_add of a (2,3) operand: constant axis 0,1,-1,-2; symbolic initial value with keepdims nm::True / nm::False; tuples of constant axes (incl. the full reduction to a scalar) (quick tier: of the mixed calls only the constant-argument one).', mix=(2, 1), cbmc_flags=['--slice-formula']),
+ _ct('diagonal', 12, 'view::diagonal of a (2,3,2) operand: constant offset 0,1,2 (>= 0 and inside the matrix) and 12 (offset, axis1, axis2) combinations incl. negative axes and the all-default call.'),
+ _ct('tril', 7, 'view::tril of a (2,3) operand: default k and constant k = 0,1,2,-1,-2,3.'),
+ _ct('triu', 7, 'view::triu of a (2,3) operand: default k and constant k = 0,1,2,-1,-2,3.', tu='tril'),
+ _ct('eye', 10, 'view::eye(N, M / None, k) with all arguments constants: 10 combinations, k in -2..3.', tu='eye'),
+ _ct('tri', 10, 'view::tri(N, M / None, k) with all arguments constants: 10 combinations, k in -2..3.', tu='eye'),
+ _ct('pad', 7, 'view::pad of a (2,3) operand: 7 constant width tuples [before_0, before_1, after_0, after_1], symbolic fill value.'),
+ _ct('slice', 12, 'view::slice of a (2,3) operand: 12 item lists with constant parts: (start, stop, step) triples / pairs with None, constant integers, Ellipsis, negative constant starts / stops (a negative constant STEP does not compile).'),
+ _ct('arange', 8, 'view::arange with constant (stop), (start, stop), (start, stop, step) incl. negative values, int element type.', tu='gen'),
+ _ct('full', 12, 'view::full (symbolic value) / zeros / ones with the shape as a tuple of constants: (2,3), (4), (2,1,3), (1,2,2,2).', tu='gen'),
+ _ct('broadcast_to', 4, 'view::broadcast_to of a (2,3) operand to the constant targets (2,3), (1,2,3), (2,2,3), (3,1,2,3).'),
+ _ct('broadcast_to13', 4, 'view::broadcast_to of a (1,3) operand to the constant targets (1,3), (2,3), (4,3), (2,3,3).', tu='broadcast_to'),
+ _ct('concatenate', 3, 'view::concatenate of two (2,3) operands: constant axis 0, 1 and None.'),
+]
 OUTSIDE = ['dynamic ndarray_t backed by std::vector (std build): transpose query killed at 11 GB, sum at 12.8 GB - not reached; the utl::vector-backed dynamic kind is covered for transpose; view::sum on the dynamic kind: out of memory at 16 GB (utl build) - not reached', 'gcc vs clang (only clang IR is encoded; g++ is reached by gate and replay)', 'Boost containers', 'clipped shapes', 'the 15 ndarray shape x buffer kinds via cast (3 kinds covered)',
-           'constant kinds beyond the enumerated instantiations (types cannot be symbolic)', 'operations other than the listed ones (each C01-C08 harness fixes one kind)']
+           'constant kinds beyond the enumerated instantiations (types cannot be symbolic)', 'operations other than the listed ones (each C01-C08 harness fixes one kind)',
+           'ctargs family: constant-argument instantiations other than the enumerated ones (each K is one type). Rejected by the compiler, hence not observable at run time: '
+           'view::slice with a NEGATIVE constant step, e.g. slice(a, tuple{None,None,"-1"_ct}) (index/slice.hpp:833 "no matching conversion for C-style cast from int to unsigned_step_t (aka integral_constant<int,-1>)"); '
+           'view::arange(5_ct, 0_ct, "-2"_ct) (index/arange.hpp:63 "constexpr variable shape must be initialized by a constant expression": 5_ct / 0_ct are unsigned long constants, stop-start wraps, the float -> size_t '
+           'conversion of the negative quotient is not a constant expression; arange("-1"_ct,"-7"_ct,"-3"_ct) with all-int constants compiles and is covered). '
+           'Not exercised because they are known open defects on the run-time side: negative diagonal offsets and offsets beyond the matrix (C04-diagonal-*), negative concatenate axes (C04-concatenate-negative-axis). '
+           'diagflat with a constant k is in C04. Fixed ndarray_t (constant shape tuple) as the fixed operand kind of ctargs (raw C arrays and nested std::array are used), clipped-integer arguments ("3:[4]"_ct), '
+           'operands other than (2,3) / (2,3,2) / (2,1,3) / (1,3). view::sum / view::cumsum on the 3-d operand: 10 of 15 / 5 of 6 argument variants and the mixed calls only in the thorough tier (a 3-d reduction query costs 1-5 minutes); atleast_nd with nd = 2 only in the thorough tier']
 CLAIM = dict(
  text='Differential harnesses: the same nmtools call instantiated on different container kinds (fixed array, bounded static vector, dynamic list, tuple, raw array; '
       'fixed/hybrid/dynamic ndarray) and in two build configurations (std:: containers vs NMTOOLS_DISABLE_STL utl:: containers, same source compiled twice) is shown by the solver '
-      'to give identical (success, dim, shape, element) for all symbolic inputs in scope; constant-shape instantiations (enumerated types) equal the run-time computation.',
- note='Bounded: dim-3 shapes, extents 1..3 (quick) / 1..4 (thorough), (2,3) arrays; kinds listed in the harness bounds; constants are an enumerated family. gcc/Boost configurations outside the claim.')
+      'to give identical (success, dim, shape, element) for all symbolic inputs in scope; constant-shape instantiations (enumerated types) equal the run-time computation. '
+      'Family ctargs: 28 view functions (flip, transpose, moveaxis, swapaxes, expand_dims, squeeze, reshape, atleast_nd, tile, repeat, roll, take, sum, cumsum, reduce_add, diagonal, tril, triu, eye, tri, pad, slice, '
+      'arange, full, zeros, ones, broadcast_to, concatenate) called with compile-time-constant arguments on fixed-shape operands give the same dim, shape, size and element as the call with the same values as run-time '
+      'arguments on a hybrid operand (and as the two mixed calls), and dim / shape / size / element equal the NumPy reference, for all data and every index.',
+ note='Bounded: dim-3 shapes, extents 1..3 (quick) / 1..4 (thorough), (2,3) arrays; kinds listed in the harness bounds; constants are an enumerated family (ctargs: 228 argument variants, each a per-query constant; operands (2,3), (2,3,2), (2,1,3), (1,3)). gcc/Boost configurations outside the claim.')
